@@ -130,6 +130,16 @@ class Canon:
             if v.startswith('bitcast'):
                 t = const_bitcast_target(v)
                 return t or v
+            if v.startswith('getelementptr'):
+                cg = const_gep(v)
+                if cg and cg[1].startswith('@.str'):
+                    t = self.fn.mod.globals.get(cg[1], '')
+                    if 'c"' in t:
+                        lit = t[t.index('c"') + 2:]
+                        lit = lit[:lit.index('"')]
+                        return '"' + re.sub(r'\\00$', '', lit) + '"'
+                if cg:
+                    return '&' + cg[1] + const_gep_suffix(self.prog, self.fn.mod, cg)
             return v
         op = d.op
         if op == 'load':
